@@ -112,8 +112,9 @@ PROPS = {
     'C13': {
         'lean': ['H8.Props.C13'],
         'gen': ['consts', 'busmap', 'dispatch', 'buscost'],
-        'runs': [{'mode': 'run', 'shards': 16, 'profile': 'release'}, {'mode': 'run', 'shards': 16, 'profile': 'checked'}],
-        'rule': 'whole Cpu::run executions in-process (channel-backed socket, captured messages): generated guest programs — straight-line blocks, counted and nested loops, JSR/BSR/RTS calls, port writes, console output through the write system call, programs that reprogram the bus controller, programs that must fail (unimplemented opcode, unmapped access), the 8-bit timer counting / interrupting across the run — with loop counts tuned by dry runs so that the total lands just below, exactly on (the last instruction crosses) and beyond the 1st-3rd multiple of 2,000,000; final total, sync message sequence, registers, PC, memory, messages, timer counter compared with the Model (exact) and with the Spec run (instruction by instruction, charged = 3 x bus-cycle cost, timer advanced one state at a time); selected cases are run twice, the second time with 24 spinning host threads, and must be identical. Run in the release profile and with overflow checks.',
+        'runs': [{'mode': 'run', 'shards': 16, 'profile': 'release'}, {'mode': 'run', 'shards': 16, 'profile': 'checked'},
+                 {'mode': 'bin', 'shards': 8, 'profile': 'release'}],
+        'rule': 'whole Cpu::run executions in-process (channel-backed socket, captured messages): generated guest programs — straight-line blocks, counted and nested loops, JSR/BSR/RTS calls, port writes, console output through the write system call, programs that reprogram the bus controller, programs that must fail (unimplemented opcode, unmapped access), the 8-bit timer counting / interrupting across the run — with loop counts tuned by dry runs so that the total lands just below, exactly on (the last instruction crosses) and beyond the 1st-3rd multiple of 2,000,000; final total, sync message sequence, registers, PC, memory, messages, timer counter compared with the Model (exact) and with the Spec run (instruction by instruction, charged = 3 x bus-cycle cost, timer advanced one state at a time); selected cases are run twice, the second time with 24 spinning host threads, and must be identical. Run in the release profile and with overflow checks. Mode bin: the same kinds of programs wrapped into ELF files (one PT_LOAD, .stack, .symtab with ___exit) and run by the emulator\'s own release binary built from /repo (main.rs argument parsing, elf::load, Cpu::run, -m message printing): outcome, state total and exit code from its log and the printed message sequence compared with the model of run() started from the state the real loader produces in-process.',
         'assumptions': ['wall-clock pacing (spin_sleep) is not modelled: it reads and writes no emulator state; its independence is checked by the reruns under host load',
                         'the factor 3 ("temporary speed adjustment") is taken as part of the amount charged'],
     },
